@@ -36,17 +36,18 @@ def main():
     out = os.path.join(VERIF, "seeded", pid)
     os.makedirs(out, exist_ok=True)
     res = {"property": pid, "ran": [], "confirmed": None}
+    bd = "_build_seed" if os.path.exists(os.path.join(wt, "_build_seed", "build.ninja")) else "_build"
     if not skip:
         steps = []
-        rc, o = sh("git apply _seed/patch.diff && cmake --build _build -j8 2>&1 | tail -2", cwd=wt)
+        rc, o = sh("git apply _seed/patch.diff && cmake --build %s -j8 2>&1 | tail -2" % bd, cwd=wt)
         steps.append(("apply+build", rc))
-        rc, o = sh("ctest --test-dir _build -j8 --timeout 900 2>&1 | tail -15", cwd=wt)
+        rc, o = sh("ctest --test-dir %s -j8 --timeout 900 2>&1 | tail -15" % bd, cwd=wt)
         ok_suite = ("tests failed out of 93" in o and "1 tests failed" in o and "customfunction" in o) or "100% tests passed" in o
         steps.append(("ctest with patch", ok_suite, o.strip().splitlines()[-4:]))
         rc_fail, o1 = sh("bash _seed/run.sh 2>&1 | tail -5", cwd=wt, timeout=1800)
         rc_fail2, _ = sh("bash _seed/run.sh >/dev/null 2>&1", cwd=wt, timeout=1800)
         steps.append(("demo with patch (must fail)", rc_fail2 != 0, o1[-400:]))
-        sh("git apply -R _seed/patch.diff && cmake --build _build -j8 2>&1 | tail -2", cwd=wt)
+        sh("git apply -R _seed/patch.diff && cmake --build %s -j8 2>&1 | tail -2" % bd, cwd=wt)
         rc_pass, o2 = sh("bash _seed/run.sh >/dev/null 2>&1; echo rc=$?", cwd=wt, timeout=1800)
         steps.append(("demo without patch (must pass)", "rc=0" in o2))
         res["confirmed"] = bool(ok_suite and rc_fail2 != 0 and "rc=0" in o2)
